@@ -278,7 +278,10 @@ func NewFunc[F func(vm *VM) | func(vm *VM) Value | func(vm *VM, args []Value) | 
 		res = newFunc(argc, rets, f)
 	case func(vm *VM) Value: // 0->1
 		res = newFunc(argc, rets, func(vm *VM) {
-			vm.stack = append(vm.stack, f(vm))
+			// this form does not look at its arguments: drop them, so the result
+			// (and not the first argument) is what the caller finds on the stack
+			r := f(vm)
+			vm.stack = append(vm.stack[:len(vm.stack)-argc], r)
 		})
 	case func(vm *VM, args []Value): // N->0
 		res = newFunc(argc, rets, func(vm *VM) {
